@@ -53,7 +53,7 @@ class Run:
         self.sysd, self.spec, self.pre, self.trace, self.ops, self.sys_text = su.parse_run(f[2:])
         self.op_texts = su._split(f[6], ";")
         su.check_run(self.sysd, self.spec)
-        self.tbs, self.names = su.make_system(self.sys_text, tuple(e for e, _, _ in self.spec[1]))
+        self.tbs, self.names = su.make_system(self.sys_text, tuple(g[0] for g in self.spec[1]))
 
     def fresh(self):
         sim = su.build_simulation(self.tbs, self.spec, self.names)
@@ -63,10 +63,17 @@ class Run:
 
 
 def structure(sim) -> dict:
+    """entity structure with every role-dependent read: the role of each member, `nb_persons(role)` and
+    `persons.has_role(role)` for every role of every group entity"""
     out = {}
     for key, pop in sim.populations.items():
         mei = getattr(pop, "members_entity_id", None)
-        out[key] = (pop.count, [str(i) for i in pop.ids], None if mei is None else [int(g) for g in mei])
+        roles = None
+        if mei is not None:
+            r, counts = su.role_reads(pop)
+            has = [[bool(x) for x in sim.persons.has_role(su.role_object(pop.entity, role))] for role in su.STD_ROLES]
+            roles = (r, counts, has)
+        out[key] = (pop.count, [str(i) for i in pop.ids], None if mei is None else [int(g) for g in mei], roles)
     return out
 
 
@@ -119,7 +126,7 @@ def roots(sim):
 
 
 def snapshot(sim) -> dict:
-    return {"values": su.known_values(sim), "trace": bool(sim.trace), "roots": roots(sim)}
+    return {"values": su.known_values(sim), "trace": bool(sim.trace), "roots": roots(sim), "structure": structure(sim)}
 
 
 def first_difference(a: dict, b: dict):
@@ -129,6 +136,8 @@ def first_difference(a: dict, b: dict):
             return k[0], f"v{k[0]}@{k[1]}: {a['values'].get(k, 'unknown')} instead of {b['values'].get(k, 'unknown')}"
     if a["trace"] != b["trace"] or a["roots"] != b["roots"]:
         return None, f"trace {a['trace']}/{a['roots']} instead of {b['trace']}/{b['roots']}"
+    if a.get("structure") != b.get("structure"):
+        return None, f"entity structure / roles {a['structure']} instead of {b['structure']}"
     return None
 
 
@@ -163,7 +172,10 @@ def execute(line: str):
                                  {"values": su.known_values(orig), "trace": 0, "roots": 0})
             verdict = (SIG_INITIAL, f"right after clone() the clone holds {d[1]}")
         elif structure(clone) != structure(orig):
-            verdict = (SIG_INITIAL, "right after clone() the entity structures differ")
+            sc, so = structure(clone), structure(orig)
+            key = next(k for k in sorted(set(sc) | set(so)) if sc.get(k) != so.get(k))
+            verdict = (SIG_INITIAL, f"right after clone() the entity structure of {key} (count, ids, memberships, (roles, "
+                                    f"nb_persons per role, has_role per role)) differs: clone {sc.get(key)} original {so.get(key)}")
         verdict = verdict or ownership(orig, clone)
         shared = sharing(orig, clone)
 
@@ -248,7 +260,15 @@ def nontrivial(case: Case, out: str) -> bool:
 def fmt_formula(f) -> str:
     if f is None:
         return "-"
-    return str(f[0]) + "".join(f"+{c}*{d}.{via}.{pt}" for c, d, via, pt in f[1])
+    return str(f[0]) + "".join(f"+{c}*{d}.{fmt_via(via)}.{pt}" for c, d, via, pt in f[1])
+
+
+def fmt_via(via) -> str:
+    if isinstance(via, str):
+        return via
+    if via[0] == "hr":
+        return f"hr{via[1]}_" + "_".join(map(str, via[2]))
+    return via[0] + "_".join(map(str, via[1]))
 
 
 def fmt_sys(sysd) -> str:
@@ -257,7 +277,8 @@ def fmt_sys(sysd) -> str:
 
 def fmt_spec(spec) -> str:
     n, groups, mem = spec
-    g = ",".join(f"{e}:{c}:{'.'.join(map(str, mei))}" for e, c, mei in groups) or "-"
+    g = ",".join(f"{e}:{c}:{'.'.join(map(str, mei))}:{'-' if roles is None else '.'.join(map(str, roles))}"
+                 for e, c, mei, roles in groups) or "-"
     m = "-" if mem is None else "d" + ".".join(map(str, mem))
     return f"{n}/{g}/{m}"
 
@@ -290,14 +311,24 @@ def gen_spec(rng: random.Random):
         count = rng.randint(1, n)
         mei = list(range(count)) + [rng.randrange(count) for _ in range(n - count)]
         rng.shuffle(mei)
-        groups.append((e, count, mei))
+        roles = None
+        if rng.random() < 0.75:       # explicit roles: sub-roles of r0, r1, and at most one r2 (max 1) per group
+            roles, taken = [], set()
+            for g in mei:
+                r = rng.choice([0, 0, 1, 2, 2, 3])
+                if r == 3 and g in taken:
+                    r = 2
+                if r == 3:
+                    taken.add(g)
+                roles.append(r)
+        groups.append((e, count, mei, roles))
     return n, groups
 
 
 def gen_system(rng: random.Random, groups):
     """inputs first, then formulas reading earlier variables (plus, rarely, a spiral, a cycle, a unit or
     entity mismatch)"""
-    gk = [e for e, _, _ in groups]
+    gk = [g[0] for g in groups]
     sysd, tags = [], []
     unit = lambda: rng.choice(["month", "month", "month", "year", "eternity"])
     # inputs
@@ -327,10 +358,19 @@ def gen_system(rng: random.Random, groups):
                 via = "p"
             else:
                 continue            # group to another group: no direct path
+            if via == "m" and rng.random() < 0.5:
+                via = ("mr", rng.choice(su.STD_ROLES))       # role-filtered sum
+                tags.append("role-read")
             if not ok_units(d):
                 tags.append("unit-mismatch")
             pt = "l" if (u == "month" and sysd[d][1] == "month" and rng.random() < 0.15) else "s"
             terms.append((rng.choice([1, 1, 2, -1, 3]), d, via, pt))
+        if u != "eternity" and gk and rng.random() < 0.35:      # role-dependent reads without a dependency
+            if e == 0:
+                terms.append((rng.choice([1, 5]), 0, ("hr", rng.choice(gk), rng.choice(su.STD_ROLES)), "s"))
+            else:
+                terms.append((rng.choice([1, 10]), 0, ("nb", rng.choice(su.STD_ROLES)), "s"))
+            tags.append("role-read")
         r = rng.random()
         if r < 0.06 and u == "month":
             terms.append((1, i, "s", "l"))          # v(p) = … + v(p.last_month): a spiral
@@ -361,7 +401,7 @@ def any_period(rng: random.Random) -> str:
 
 def gen_op(rng: random.Random, sysd, spec, tags):
     n, groups, _ = spec
-    count = {0: n, **{e: c for e, c, _ in groups}}
+    count = {0: n, **{g[0]: g[1] for g in groups}}
     nv = len(sysd)
     r = rng.random()
     if r < 0.33:
@@ -418,7 +458,7 @@ def gen_case(rng: random.Random, disk: bool, lo: int, hi: int) -> Case:
                 other = "c" if s0 == "o" else "o"
                 kind = rng.choice("skd")
                 if kind == "s" and o0[2] is not None:
-                    k = {0: n, **{e: c for e, c, _ in groups}}.get(sysd[o0[1]][0], 1)
+                    k = {0: n, **{g[0]: g[1] for g in groups}}.get(sysd[o0[1]][0], 1)
                     ops[i] = (other, ("s", o0[1], o0[2], [rng.choice([4, 6, 7, 9]) for _ in range(k)]))
                 elif kind == "k" and o0[2] is not None:
                     ops[i] = (other, ("k", o0[1], o0[2]))
@@ -435,7 +475,7 @@ MALFORMED = [
     "heap run 0:month:0:- 1/-/- q:0 0 -", "heap run 0:month:0:- 1/-/- - 0 xs:0:eternity:1",
     "heap run 0:month:0:- 1/-/- - 0 os:0:month/2018,1/1:1", "heap run 0:month:0:- 1/-/- - 0 os:0:eternity:a",
     "heap run 0:month:0:1+2*0 1/-/- - 0 -", "heap run 0:month:0:1+2*0.x.s 1/-/- - 0 -", "heap clone 1 2",
-    "heap run 0:month:0:- 1/1:1/- - 0 -", "heap run 0:month:0:- 1/-/- - 0 ot:2",
+    "heap run 0:month:0:- 1/1:1:0/- - 0 -", "heap run 0:month:0:- 1/1:1:0:4/- - 0 -", "heap run 0:month:0:-;1:month:0:0+1*0.mr4.s 1/1:1:0:-/- - 0 -", "heap run 0:month:0:0+1*0.nb2.s 1/1:1:0:-/- - 0 -", "heap run 0:month:0:- 1/-/- - 0 ot:2",
 ]
 
 
@@ -472,7 +512,7 @@ def gen_spiral_case(rng: random.Random, lo: int, hi: int) -> Case:
 
 
 def generate(rng: random.Random, tier: str):
-    n_mem, n_disk, n_spiral, lo, hi = (4500, 1500, 900, 5, 12) if tier == "quick" else (36000, 12000, 6000, 5, 15)
+    n_mem, n_disk, n_spiral, lo, hi = (2600, 800, 500, 5, 12) if tier == "quick" else (30000, 10000, 5000, 5, 15)
     out = [gen_case(rng, False, lo, hi) for _ in range(n_mem)]
     out += [gen_case(rng, True, lo, hi) for _ in range(n_disk)]
     out += [gen_spiral_case(rng, lo, hi) for _ in range(n_spiral)]
@@ -498,7 +538,9 @@ def corpus():
     """the minimal failing input of every recorded defect of C13, then the examples beside the theorems"""
     person = [(0, "month", 0, None)]
     one = (1, [], None)
-    hh = (2, [(1, 1, [0, 0])], None)
+    hh = (2, [(1, 1, [0, 0], None)], None)
+    roles = [(0, "month", 0, None), (1, "month", 0, (0, [(1, 0, ("mr", (2,)), "s"), (10, 0, ("nb", (3,)), "s")])),
+             (0, "month", 0, (0, [(1, 0, ("hr", 1, (2,)), "s")]))]
     grp = [(0, "month", 0, None), (1, "month", 0, None), (1, "month", 0, (0, [(1, 0, "m", "s")]))]
     spiral = [(0, "month", 0, (1, [(1, 0, "s", "l")]))]
     return [
@@ -517,11 +559,17 @@ def corpus():
         mk(person, (1, [], []), [("h", 0)], False, [("c", ("d", 0, None))], ("corpus", "F-C13-disk")),
         # F-C13c: a spiral in the clone leaves entries in the set the original still uses
         mk(spiral, one, [], False, [("c", ("k", 0, M3)), ("o", ("s", 0, M2, [5])), ("o", ("k", 0, M3))], ("corpus", "F-C13c")),
+        # seeded change C13-3: a clone that does not carry `_members_role` over gives every member the first role
+        mk(roles, (3, [(1, 2, [0, 0, 1], [0, 2, 3])], None), [("s", 0, M1, [1, 2, 3])], False,
+           [("c", ("k", 1, M1)), ("o", ("k", 2, M1)), ("c", ("k", 2, M1))], ("corpus", "roles")),
         # the example of Props/C13.lean
         mk([(0, "month", 0, None), (0, "month", 5, (3, [(2, 0, "s", "s")])), (1, "month", 0, (0, [(1, 0, "m", "s")])),
-            (0, "eternity", 7, None)], (3, [(1, 2, [0, 0, 1])], None),
+            (0, "eternity", 7, None),
+            (1, "month", 0, (0, [(1, 0, ("mr", (2,)), "s"), (10, 0, ("nb", (3,)), "s")])),
+            (0, "month", 0, (0, [(1, 0, ("hr", 1, (2,)), "s")]))], (3, [(1, 2, [0, 0, 1], [0, 2, 3])], None),
            [("s", 0, M1, [1, 2, 3]), ("k", 1, M1)], False,
-           [("c", ("k", 2, M1)), ("o", ("s", 0, M1, [4, 4, 4])), ("c", ("d", 0, None)), ("o", ("k", 1, M2)),
+           [("c", ("k", 2, M1)), ("c", ("k", 4, M1)), ("o", ("s", 0, M1, [4, 4, 4])), ("o", ("k", 4, M1)),
+            ("o", ("k", 5, M1)), ("c", ("d", 0, None)), ("o", ("k", 1, M2)),
             ("c", ("a", 1, Y18)), ("c", ("t", True)), ("c", ("k", 3, M3))], ("corpus", "example")),
     ]
 
@@ -539,7 +587,10 @@ PROP = Prop(
           "year and eternity definition periods; inputs, and formulas `c + sum coef*dep` whose dependencies are read through "
           "population(dep, p), group.sum(group.members(dep, p)) or person.<group>(dep, p), at the requested period or at "
           "period.last_month; rarely a self-reference through last_month (spiral), a same-period cycle, a unit or an entity "
-          "mismatch); real Population / GroupPopulation objects of 1-4 persons in 0-2 group entities (every group non-empty) "
+          "mismatch; role-dependent reads: group.sum(..., role=R), group.nb_persons(role=R), person.has_role(R)); every group "
+          "entity declares r0 (sub-roles r0s0, r0s1), r1, r2 (max 1), and 3 simulations in 4 assign explicit roles (members in "
+          "second / third roles and sub-roles, at most one r2 per group), the others never assign members_role; "
+          "real Population / GroupPopulation objects of 1-4 persons in 0-2 group entities (every group non-empty) "
           "handed to Simulation(tbs, populations), with or without MemoryConfig(max_memory_occupation=0, priority_variables=...) "
           "installed before any holder exists; 0-6 public calls on the original (some histories first touch every holder), "
           "clone(trace=...) and 5-12 (thorough 5-15) interleaved calls on original and clone: set_input (own-unit periods, "
@@ -550,7 +601,8 @@ PROP = Prop(
           "(id()-classes of simulation.persons / populations / tracer / invalidated_caches / _data_storage_dir, "
           "population.simulation / _holders / members, holder.population / simulation / _memory_storage / ._arrays / "
           "_disk_storage / its directory, of both simulations) and, after every call, its result and every observable of both "
-          "simulations (known periods and vectors of every holder, entity structure, what each part refers to, trace flag, "
+          "simulations (known periods and vectors of every holder, entity structure with the role of every member and "
+          "nb_persons(role) for every role, what each part refers to, trace flag, "
           "recorded roots, stack depth, invalidated set). Non-trivial = some call after the clone changed an observable. "
           "distinct = distinct protocol lines."),
     assumptions=[
